@@ -277,7 +277,105 @@ def metamorphic(seed, tier):
                 break
     except Exception as e:
         wit.append({'kind': 'unnamed-error', 'error': f'{type(e).__name__} {e}'})
+    # 6. exact ties between the parallel input machines of a group: the same model, the same seed, run again and
+    #    again in this process; only the number (and size) of the objects allocated beforehand differs, i.e. the
+    #    memory addresses and the asset ids
+    try:
+        for shape in range(len(GROUP_SHAPES)):
+            ref = None
+            for r in range(16 if tier == 'quick' else 60):
+                got = group_ties(seed, shape, rng.randrange(0, 48) if r else 0, rng)
+                stats['group_tie_runs'] = stats.get('group_tie_runs', 0) + 1
+                evals += 1
+                if ref is None:
+                    ref = got
+                elif got != ref:
+                    k = next(i for i in range(max(len(got), len(ref))) if i >= len(got) or i >= len(ref) or got[i] != ref[i])
+                    wit.append({'kind': 'same-seed-group-ties', 'model': GROUP_SHAPES[shape % len(GROUP_SHAPES)],
+                                'run': r, 'first_differing_record': k,
+                                'reference_run': [repr(x) for x in ref[k:k + 4]],
+                                'this_run': [repr(x) for x in got[k:k + 4]],
+                                'note': 'same model, same seed, one process; only the number of objects created before '
+                                        'the model differs (records shown with part ids renumbered by first appearance)'})
+                    break
+            if wit:
+                break
+    except Exception as e:
+        wit.append({'kind': 'group-ties-error', 'error': f'{type(e).__name__} {e}'})
     return evals, wit, stats
+
+
+GROUP_SHAPES = [
+    'source -> path through a group of 3 equal machines, all of them input and output devices of the group -> sink',
+    'two sources -> two paths through one group of 4 equal machines (3 named as inputs, listed in reverse) -> a buffer -> sink',
+    'source -> path through a group: 3 equal handlers (inputs) -> one machine (output) -> sink; part budget topped up',
+]
+_KEEP = []
+
+
+def group_ties(seed, shape, ballast, rng):
+    """A group whose `input_override` names several parallel devices which have been idle for exactly the same
+    time: which of them is served is decided by the order in which the USER listed them.  `ballast` throw-away
+    objects (assets and plain ones, kept alive) are allocated before and between the constructions.  Returns the
+    recorded data, part ids renumbered by first appearance."""
+    import impl
+    impl.CTX = None
+    from simprocesd.model import System
+    from simprocesd.model.factory_floor import Source, Sink, PartProcessor, PartHandler, Buffer, Group, Part
+
+    def junk(k):
+        # assets move the id counter, the odd-sized plain objects move the addresses of what is allocated next
+        _KEEP.append([Part() if i % 3 == 0 else (bytearray(17 * (i % 7) + 1) if i % 3 == 1 else object()) for i in range(k)])
+    if len(_KEEP) > 4000:
+        del _KEEP[:2000]
+    junk(ballast)
+    random.seed(seed * 7919 + 17)
+    s = System()
+    shape %= len(GROUP_SHAPES)
+    if shape == 0:
+        src = Source('src', cycle_time=1)
+        ms = []
+        for i in range(3):
+            junk(ballast % (i + 2))
+            ms.append(PartProcessor(f'm{i}', cycle_time=2.5))
+        g = Group('cell', list(ms), input_override=list(ms), output_override=list(ms))
+        Sink('sink', [g.get_new_group_path('path', [src])])
+        horizon = 14
+    elif shape == 1:
+        srcs = [Source('a', cycle_time=1), Source('b', cycle_time=1)]
+        ms = []
+        for i in range(3):
+            junk((ballast + i) % 5)
+            ms.append(PartProcessor(f'm{i}', cycle_time=3))
+        last = PartProcessor('m3', ms, cycle_time=0.5)
+        g = Group('cell', ms + [last], input_override=ms[::-1], output_override=[last])
+        paths = [g.get_new_group_path(f'path{i}', [x]) for i, x in enumerate(srcs)]
+        Sink('sink', [Buffer('buf', paths, capacity=3)])
+        horizon = 16
+    else:
+        src = Source('src', cycle_time=0.5, starting_parts=5)
+        hs = []
+        for i in range(3):
+            junk((ballast * (i + 1)) % 7)
+            hs.append(PartHandler(f'h{i}', cycle_time=2))
+        out = PartProcessor('out', hs, cycle_time=0.25)
+        g = Group('cell', hs + [out], input_override=list(hs), output_override=[out])
+        Sink('sink', [g.get_new_group_path('path', [src])])
+        s.simulate(6, print_summary=False)
+        src.adjust_part_count(4)          # the three handlers are idle again (equally long or not, as it happens)
+        horizon = 10
+    s.simulate(horizon, print_summary=False)
+    _KEEP.append(s)
+    d = s.simulation_data
+    ids, out_ = {}, []
+    for label in sorted(d, key=str):
+        for sub in sorted(d[label], key=str):
+            for dp in d[label][sub]:
+                dp = list(dp) if isinstance(dp, tuple) else [dp]
+                if label in ('received_part', 'produced_part', 'supplied_new_part', 'device_failure') and len(dp) > 1:
+                    dp[1] = ids.setdefault(dp[1], len(ids))
+                out_.append((str(label), str(sub), tuple(dp)))
+    return out_
 
 
 def unnamed_merge(seed, offset):
